@@ -144,6 +144,11 @@ def network(rng, n, pattern):
 PATTERNS = ["perfect", "drop1", "drop", "dup1", "dup", "swap", "reverse", "shuffle", "replay", "chaos"]
 
 
+def strip_z(case):
+    hd, bar, body = case.partition("|")
+    return hd + bar + ";".join(o for o in body.split(";") if not o.startswith("Z:"))
+
+
 def head(kind, mode, rmtu, rmagic, rsex=0, rmax=NOLIM, misc=0):
     return "%s,%s,%d,%d,%d,%d,%d" % (kind, mode, rmtu, rmagic, rsex, rmax, misc)
 
@@ -432,20 +437,48 @@ class CHECK(vlib.Check):
 
     def add_ztables(self, cases):
         """zlib is external to the model: for the cases that compress, ask the implementation (harness --ztable) what the codec
-        made of each packet it wrote and hand that graph to the model driver as Z ops"""
+        made of each packet it wrote and hand that graph to the model driver as Z ops.  Z ops are always derived afresh from
+        the tree under test (stale ones are stripped first), also when a case is replayed or shrunk."""
         exe = os.path.join(vlib.BUILD, "bin", "tunnel_impl")
-        need = [k for k, (s, c) in enumerate(cases) if c.startswith("N,") and re.search(r"\|S:\d+:\d+:\d+:\d+:\d+:[1-9]|;S:\d+:\d+:\d+:\d+:\d+:[1-9]", c)]
+        cases = [(s, strip_z(c)) for s, c in cases]
+        need = [k for k, (s, c) in enumerate(cases) if c.startswith("N,") and re.search(r"[|;]S:\d+:\d+:\d+:\d+:\d+:[1-9]", c)]
         if not need or not os.path.exists(exe):
             return cases
         text = "".join(cases[k][1] + "\n" for k in need)
-        p = subprocess.run([exe, "--ztable"], input=text, stdout=subprocess.PIPE, stderr=subprocess.PIPE, text=True,
-                           env=dict(os.environ, **vlib.SAN_ENV), timeout=1200)
-        for line in p.stdout.splitlines():
+        try:
+            p = subprocess.run([exe, "--ztable"], input=text, stdout=subprocess.PIPE, stderr=subprocess.PIPE, text=True,
+                               env=dict(os.environ, **vlib.SAN_ENV), timeout=1200)
+            lines = p.stdout.splitlines()
+        except subprocess.TimeoutExpired:
+            lines = []
+        for line in lines:
             sp = line.split(" ", 1)
             if sp[0].isdigit() and int(sp[0]) < len(need) and len(sp) > 1 and sp[1].startswith(";Z:"):
                 k = need[int(sp[0])]
                 cases[k] = (cases[k][0], cases[k][1] + sp[1])
         return cases
+
+    def corpus_cases(self):
+        return self.add_ztables(super().corpus_cases())
+
+    def eval_one(self, impl, model, case):
+        return super().eval_one(impl, model, self.add_ztables([("x", case)])[0][1])
+
+    def run(self, tier="quick", seed=1, replay=None):
+        if replay:
+            # a replayed case gets its zlib graph from the tree it is replayed on
+            import json, tempfile
+            rp = json.load(open(replay))
+            if "case" in rp and rp["case"]:
+                try:
+                    vlib.build_harness(**self.harness)    # the zlib graph comes from the implementation alone
+                except RuntimeError:
+                    pass
+                rp["case"] = self.add_ztables([("replay", rp["case"])])[0][1]
+                f = tempfile.NamedTemporaryFile("w", suffix=".json", delete=False)
+                json.dump(rp, f); f.close()
+                replay = f.name
+        return super().run(tier=tier, seed=seed, replay=replay)
 
     def nontrivial(self, case):
         b = case.split("|", 1)[1] if "|" in case else ""
